@@ -44,3 +44,20 @@ Theorem C06_no_break_iff_no_lf :
   forall (ws : bytes) (ign : bool),
   f_nl (fmt_of_ws ws ign) = 0 <-> contains_byte 10 ws = false.
 Proof. exact fmt_of_ws_nl_zero_iff. Qed.
+
+(* the grammar model reads the layout only inside asm blocks: the parse result is a function of the token types alone when the
+   text has no `asm` keyword (the per-token "leading whitespace holds a line break" flags are irrelevant) - for every input *)
+From PasfmtVerif Require Import Model.ParserGrammar Proofs.ParserGrammarProofs Proofs.ParserGrammarConsumedProofs Proofs.ParserGrammarConsumed2Proofs Proofs.ParserGrammarWsnlProofs.
+Theorem C06_parser_layout_free_without_asm :
+  forall (toks : list RawTokenType) (w w' : list bool) (passes : list (list nat)),
+  (forall t : RawTokenType,
+   In t toks -> t <> RTT_Keyword KK_Asm /\ t <> RTT_IdentifierOrKeyword KK_Asm) ->
+  parse_file_with toks w passes = parse_file_with toks w' passes.
+Proof. exact parse_file_wsnl_irrelevant'. Qed.
+
+Theorem C06_parser_model_layout_free_without_asm :
+  forall (toks : list RawTokenType) (w w' : list bool),
+  no_asm toks -> parse_file_model toks w = parse_file_model toks w'.
+Proof. exact parse_file_model_wsnl_irrelevant. Qed.
+
+
